@@ -56,4 +56,8 @@ TEXTS.update({
             "level_note": _REP_NOTE},
 })
 
+TEXTS["C06"] = {"engine": "attack", "design_ref": "§4 C06", "technique": "fault-sequence simulation at the transport and body-reader seams under the real net/http.Client, on the synctest fake clock",
+    "level_text": "exploration: request on the wire equals the target (method, URL, body, header keys in original case, Host, sequence and attack headers, chunked), result equals the final response (code, headers, first max-body bytes, byte counts, error text iff status outside [200,400)), failed exchanges always carry an error and no success status, the final body is read to its end and closed in every case",
+    "level_note": _ATK_NOTE}
+
 NOT_APPLICABLE = {}
